@@ -72,9 +72,111 @@ class NameModeParts(Suite):
         return repr(case)
 
 
+OBJ_SRC = """
+import json
+from taskchain import Task, Parameter
+
+RUNS = []
+
+def state(o):
+    return json.loads(json.dumps({k: v for k, v in sorted(vars(o).items()) if not k.startswith('_taskchain')}, default=lambda x: sorted(x) if isinstance(x, set) else str(x)))
+
+class Use(Task):
+    class Meta:
+        parameters = [Parameter('obj'), Parameter('objs', default=None)]
+    def run(self, obj, objs) -> dict:
+        RUNS.append('use')
+        return {'obj': state(obj), 'objs': [state(o) for o in (objs or [])]}
+
+class Down(Task):
+    class Meta:
+        input_tasks = [Use]
+    def run(self, use) -> dict:
+        RUNS.append('down')
+        return {'from': use}
+"""
+
+
+class ObjectArguments(Suite):
+    """two configurations on one data directory whose parameter object differs in one constructor argument - a named one,
+    one collected by ** or *, one kept only in a private attribute, one inside a list of objects: each configuration's
+    tasks, asked in turn, again through new chains and in a new process, yield the value computed from its own object.
+    Runtime check only (the tasks describe the object by its attributes, not by the text the library makes of it)."""
+    name = 'object_arguments'
+    model = ''
+
+    def gen(self, rng, tier):
+        import json
+        from .c03 import ObjectPairs
+        from ..values import filtered_auto_args
+        out = []
+        for c in ObjectPairs().gen(rng, 'quick'):
+            persisted = lambda a: json.dumps(filtered_auto_args({'__auto__': c['cls'], 'args': a}), sort_keys=True)
+            if c.get('cls') in ('AutoK', 'AutoV', 'AutoP', 'AutoD', 'AutoA', 'AutoC') and len(out) < 14 and persisted(c['a1']) != persisted(c['a2']):
+                out.append(dict(cls=c['cls'], a1=c['a1'], a2=c['a2'], nested=False))
+        out += [dict(cls='AutoK', a1={'a': 1, 'offset': 5}, a2={'a': 1, 'offset': 7}, nested=True),
+                dict(cls='AutoV', a1={'steps': ['a', 'b']}, a2={'steps': ['b', 'a']}, nested=True),
+                dict(cls='AutoP', a1={'path': 'a'}, a2={'path': 'b'}, nested=True)]
+        return out
+
+    def run_impl(self, case):
+        import sys, types, json
+        from pathlib import Path
+        from taskchain import Config
+        from .. import pipeline as pl
+        from ..values import definition_of, materialize
+        from .c05 import in_child
+        with pl.workspace(dict(classes=[], files={})) as (d, _):
+            name = 'tcv_objargs'
+            m = types.ModuleType(name)
+            sys.modules[name] = m
+            try:
+                exec(compile(OBJ_SRC, name, 'exec'), m.__dict__)
+                specs = [{'__auto__': case['cls'], 'args': a} for a in (case['a1'], case['a2'])]
+
+                def data(spec):
+                    first = {'__auto__': 'AutoA', 'args': {'a': 0}}
+                    return {'tasks': [f'{name}.*'], 'obj': definition_of(first if case['nested'] else spec),
+                            'objs': definition_of([first, spec]) if case['nested'] else None}
+
+                def want(spec):
+                    first = {'__auto__': 'AutoA', 'args': {'a': 0}}
+                    return {'from': {'obj': m.state(materialize(first if case['nested'] else spec)),
+                                     'objs': [m.state(materialize(x)) for x in ([first, spec] if case['nested'] else [])]}}
+
+                def see(k):
+                    ch = Config(Path('data'), name=f'c{k}', data=data(specs[k])).chain()
+                    return dict(value=ch['down'].value, path=str(ch['down'].data_path))
+
+                seen = [see(0), see(1), see(0), in_child(lambda: see(1)), in_child(lambda: see(0))]
+                return dict(seen=seen, want=[want(specs[0]), want(specs[1])], runs=list(m.RUNS))
+            finally:
+                sys.modules.pop(name, None)
+
+    def oracle(self, case, obs):
+        import json
+        if 'unexpected_exception' in obs:
+            return f'unexpected exception {obs["unexpected_exception"]}: {obs["text"]}'
+        for step, k in enumerate([0, 1, 0, 1, 0]):
+            o = obs['seen'][step]
+            if 'child_error' in o:
+                return f'{case}: request {step} (new process) failed: {o["child_error"]}'
+            if json.dumps(o['value'], sort_keys=True) != json.dumps(obs['want'][k], sort_keys=True):
+                return (f'{case}: request {step}, configuration {k} with {case["cls"]}({json.dumps(case["a" + str(k + 1)])}): `down` yields '
+                        f'{json.dumps(o["value"])[:200]}, computed from its own object it is {json.dumps(obs["want"][k])[:200]}')
+        return None
+
+    def nontrivial(self, case, obs):
+        import json
+        return 'want' in obs and json.dumps(obs['want'][0], sort_keys=True) != json.dumps(obs['want'][1], sort_keys=True)
+
+    def key(self, case):
+        return repr(case)
+
+
 class C01(Prop):
     pid = 'C01'
-    suites = [Histories(), StoredValues(), ContextReuse(), NameModeParts()]
+    suites = [Histories(), StoredValues(), ContextReuse(), NameModeParts(), ObjectArguments()]
     trusted_base = ['the reference evaluator (harness/tcv/gen_pipeline.ref_value) and the frozen scheme renderer used by the oracle']
     assumptions = ['task computations are deterministic functions of their persisted parameters and inputs',
                    'location_determines_denotation (discharged by C03 under the no-collision hypothesis on SHA-256) and '
